@@ -19,12 +19,12 @@ CHECKS = {
         "technique": "static analysis: abstract interpretation of the lifecycle MIR (exit table) + exhaustive decision tables of loop-free accessors + who-may-call",
     },
     "C06": {
-        "text": "kill(): full decision table (Ok/Full/Closed x logging branches) always returns Ok(()); plain fn, no suspension point, no lock/blocking/thread/runtime primitive reachable (crate-local callees inlined to depth 3), only channel operation is try_send on the dedicated control channel (constant capacity >= 1, one try_send site in the crate). Pre-emption: exactly one select! in the loop, `biased;`, branch order control-recv < mailbox-recv < on_run established by mapping resolved calls into the DSL branch spans, first two unconditional, no random start in the poll closure, at most one handler per iteration, Some(_) arm leads to on_stop(killed=true) without a further handler. With tokio's documented biased-select semantics this implies the property for every schedule.",
+        "text": "kill(): full decision table (Ok/Full/Closed x logging branches) always returns Ok(()); plain fn, no suspension point, no lock/blocking/thread/runtime primitive reachable (crate-local callees inlined to depth 3), only channel operation is try_send on the dedicated control channel (constant capacity >= 1, one try_send site in the crate). Pre-emption: exactly one select! in the loop, `biased;`, branch order control-recv < mailbox-recv < on_run established by mapping resolved calls into the DSL branch spans, first two unconditional, no random start in the poll closure, at most one handler per iteration, Some(_) arm leads to on_stop(killed=true) without a further handler; the type-erased kill methods are plain forwarders. With tokio's documented biased-select semantics this implies the property for every schedule.",
         "note": ASSUME % "T1, T2, T4, T8, T9",
         "technique": "static analysis: select!-DSL lexing + resolved-call mapping, decision table of kill(), who-may-call on the control channel, CFG reachability",
     },
     "C07": {
-        "text": "No strong handle is stored in the lifecycle coroutine across the select! suspension point (compiler's coroutine layout + ownership walk over saved-local types + must-move dataflow for the locals the pre-elaboration layout over-approximates), for every feature set; the spawn function leaks no strong value; ActorWeak owns nothing strong, only ActorWeak/ActorRef are coerced into the weak/strong trait objects, no other impls, no static owns a handle; every loop-exit edge lies in the control-signal, stop/None or on_run-Err arm, the other arms only return to the select!; closed channels lead to on_stop(false)/Completed{killed:false} (C04/C05 rules re-evaluated); stop() really enqueues its in-band marker and the marker ends message handling; under `biased;` both receiver branches are polled before any user-code branch and the mailbox branch is unconditional (no starvation of an accepted stop by an always-ready on_run); upgrade() decided by its decision table.",
+        "text": "No strong handle is stored in the lifecycle coroutine across the select! suspension point (compiler's coroutine layout + ownership walk over saved-local types + must-move dataflow for the locals the pre-elaboration layout over-approximates), for every feature set; the spawn function leaks no strong value; ActorWeak owns nothing strong, only ActorWeak/ActorRef are coerced into the weak/strong trait objects, no other impls, no static owns a handle; every loop-exit edge lies in the control-signal, stop/None or on_run-Err arm, the other arms only return to the select!; closed channels lead to on_stop(false)/Completed{killed:false} (C04/C05 rules re-evaluated); stop() really enqueues its in-band marker and the marker ends message handling; under `biased;` both receiver branches are polled before any user-code branch and the mailbox branch is unconditional (no starvation of an accepted stop by an always-ready on_run); a dequeued message is never skipped (handler exactly once); upgrade() decided by its decision table.",
         "note": ASSUME % "T2, T4, T8, T9",
         "technique": "static analysis: coroutine-layout liveness + ownership type walk + must-move dataflow, loop-exit dominance, impl/unsize-coercion inventory",
     },
@@ -54,12 +54,12 @@ CHECKS = {
         "technique": "static analysis: argument provenance, guard dominance, decision table of the validator, who-may-call",
     },
     "C10": {
-        "text": "All 4 tokio::time::timeout sites (timeout_at is accepted when its deadline is Instant::now() advanced by the parameter with a total checked_add; a panicking `Instant + Duration` is reported): duration is exactly the API's Duration parameter (through closure/coroutine captures), future is exactly the whole base operation tell/ask(self|self.clone(), msg), awaited in place; Error::Timeout only in Elapsed closures passed to map_err on that await, with the same Duration; after `?` the inner Result is returned unchanged (other failures reported as themselves); is_retryable decided over all variants. Not decided: returning *at* the deadline (timer accuracy / scheduling) - runtime quantity.",
+        "text": "All 4 tokio::time::timeout sites (timeout_at is accepted when its deadline is Instant::now() advanced by the parameter with a total checked_add; a panicking `Instant + Duration` is reported): duration is exactly the API's Duration parameter (through closure/coroutine captures), future is exactly the whole base operation tell/ask(self|self.clone(), msg), awaited in place; Error::Timeout only in Elapsed closures passed to map_err on that await, with the same Duration; after `?` the inner Result is returned unchanged (other failures reported as themselves); is_retryable decided over all variants; blocking_tell/blocking_ask dispatch every Some(d) to the timeout primitive with d. Not decided: returning *at* the deadline (timer accuracy / scheduling) - runtime quantity.",
         "note": ASSUME % "T1, T5, T7, T8",
         "technique": "static analysis: argument provenance across captures, `?`/map_err value flow, decision table",
     },
     "C13": {
-        "text": "Pairing rule over every Error::Send/Timeout/Receive construction (all feature sets): conditioned on exactly the matching failure, control-equivalent with exactly one dead_letter::record::<M> with matching reason, message type, self.identity() and API label, and reaching the function result; every record is paired (so none on success, none twice through wrappers); record() does one fetch_add(1) on every path and the counter has no other writer. Four infrastructure Error::Send sites are frozen exceptions.",
+        "text": "Pairing rule over every Error::Send/Timeout/Receive construction (all feature sets): conditioned on exactly the matching failure, control-equivalent with exactly one dead_letter::record::<M> with matching reason, message type, self.identity() and API label, and reaching the function result; every record is paired (so none on success, none twice through wrappers); record() does one fetch_add(1) on every path and the counter has no other writer; neither the recorder nor a delivery function can panic on its own. Four infrastructure Error::Send sites are frozen exceptions.",
         "note": ASSUME % "T1, T3, T5, T7, T8",
         "technique": "static analysis: control-equivalence (dominators/post-dominators) pairing of error constructions and record calls, failure-condition classification, who-may-call on the counter",
     },
@@ -69,12 +69,12 @@ CHECKS = {
         "technique": "static analysis: who-may-call on the id counter static, field provenance of handle constructions, decision tables",
     },
     "C12": {
-        "text": "Isolation reduced to structure: lifecycle future directly into the single tokio::spawn, no catch_unwind, no hook on unwind paths, receivers owned by the task (pending/future senders fail). Global-state inventory: every static under every feature set is classified (atomic, OnceLock, task-local key, tracing metadata, wait-for map) - an unclassified static is reported. Lock discipline: within the live range of the wait-for MutexGuard in ask no panic entry/Assert/unwrap is reachable (crate-local callees transitively), the deliberate panic happens only after the guard was moved into mem::drop, and WaitForGuard::drop never unwraps the lock result - hence the mutex cannot be poisoned and a destructor cannot abort.",
+        "text": "Isolation reduced to structure: lifecycle future directly into the single tokio::spawn, no catch_unwind, no hook on unwind paths, receivers owned by the task (pending/future senders fail). Global-state inventory: every static under every feature set is classified (atomic, OnceLock, task-local key, tracing metadata, wait-for map) - an unclassified static is reported. Lock discipline: within the live range of the wait-for MutexGuard in ask no panic entry/Assert/unwrap is reachable (crate-local callees transitively), the deliberate panic happens only after the guard was moved into mem::drop, and WaitForGuard::drop never unwraps the lock result - hence the mutex cannot be poisoned and a destructor cannot abort. Senders get error values, not panics: no panic entry / Assert / unwrap / expect reachable in the public delivery functions, their primitives and the dead-letter recorder (only the governed deadlock panic).",
         "note": ASSUME % "T6, T7, T8, T9",
         "technique": "static analysis: statics inventory, guard live-range computation + panic-site scan with bounded inlining, who-may-call",
     },
     "C14": {
-        "text": "Wiring necessary for completeness (each item's failure loses some cycle): every hook future is the future argument of CURRENT_ACTOR.scope with this actor's identity; every async ask path enters ActorRef::ask; self-ask test, has_path call and insert lie in the live range of one MutexGuard (atomic check-then-insert) with edge caller.id -> callee identity, before the send; walk direction decided by interprocedural provenance (starts at callee id, searches caller id); true outcomes lead to the panic. NOT decided: functional correctness of the has_path loop (needs deductive/bounded verification, different family).",
+        "text": "Wiring necessary for completeness (each item's failure loses some cycle): every hook future is the future argument of CURRENT_ACTOR.scope with this actor's identity; every async ask path enters ActorRef::ask; self-ask test, has_path call and insert lie in the live range of one MutexGuard (atomic check-then-insert) with edge caller.id -> callee identity, before the send; walk direction decided by interprocedural provenance (starts at callee id, searches caller id); true outcomes lead to the panic. The cycle walk itself (loop form or successors/take/any iterator form): continues from the successor just looked up, is bounded by at least graph.len() steps, answers true exactly on the branch where the successor is the target and false only when the chain ended or the bound is exhausted (no other data-dependent early stop). NOT decided: a machine-checked proof that these structural facts imply 'finds every path' (paper argument: functional graph, at most n distinct successors).",
         "note": ASSUME % "T6, T7, T8" + " Evaluated under feature sets containing deadlock-detection.",
         "technique": "static analysis: future-wrapper provenance, lock-guard live range, interprocedural argument provenance, dominance",
     },
